@@ -1,6 +1,7 @@
 import Pamqp.Spec.Defs
 import Pamqp.Proofs.Budget
 import Pamqp.Proofs.Taxonomy
+import Pamqp.Proofs.Size
 /-!
 # C08 — decoding any byte string terminates with bounded work and memory
 The decoder model recurses on an explicit fuel (one unit per decoder call or loop iteration along
@@ -59,6 +60,15 @@ where
 
 theorem C08_result_size (f : Nat) (bs : Bytes) (c : Nat) (v : PyVal)
     (h : Decode.embedded f bs = .ok (c, v)) : nodes v ≤ bs.length + 1 := by
-  sorry
+  exact Proofs.result_size
+    { sz := nodes, szL := nodes.nodesL, szE := nodes.nodesE
+      sz_list := by intros; simp [nodes], sz_dict := by intros; simp [nodes]
+      sz_str := by intros; simp [nodes], sz_bytes := by intros; simp [nodes]
+      sz_bytearray := by intros; simp [nodes], sz_none := by simp [nodes]
+      sz_bool := by intros; simp [nodes], sz_int := by intros; simp [nodes]
+      sz_float := by intros; simp [nodes], sz_decimal := by intros; simp [nodes]
+      sz_datetime := by intros; simp [nodes]
+      szL_nil := by simp [nodes.nodesL], szL_cons := by intros; simp [nodes.nodesL]
+      szE_nil := by simp [nodes.nodesE], szE_cons := by intros; simp [nodes.nodesE] } f bs c v h
 
 end Pamqp.Props
